@@ -31,6 +31,9 @@
 (*   dup    duplicate(): tees the FIRST resource into a store while it     *)
 (*          streams and emits the copy right after it - the copy holds     *)
 (*          whatever had streamed when it is asked for (why del must drain)*)
+(*   cond   conditional(predicate, Flow(inner)): decided on the descriptor   *)
+(*          when the chain is built - the inner step (map / filter / sort) *)
+(*          in place if the predicate holds, nothing otherwise             *)
 (*   cat    concatenate(all): one output resource chaining every upstream  *)
 (*          resource; asks below for exactly the resources it was promised *)
 (*   fault  a step that raises: in its package phase, at the first row, or *)
@@ -62,7 +65,10 @@ MkRows(i, vs) == [k \in 1..Len(vs) |-> [s |-> i, k |-> k, v |-> vs[k]]]
 MapRow(r) == [r EXCEPT !.v = @ + 10]
 Keep(r) == r.v % 2 = 1
 SortDesc(s) == Reverse(SortSeq(s, LAMBDA a, b : a.v < b.v))     \* sort_rows(reverse=True): exactly the reverse of the stable ascending order
-ApplyStep(i, st, pkg) ==
+\* what a step is once the chain is built: a conditional IS its inner step, or nothing
+Eff(st) == IF st.kind = "cond" THEN (IF st.pred THEN [kind |-> st.inner] ELSE [kind |-> "id"]) ELSE st
+ApplyStep(i, st0, pkg) ==
+   LET st == Eff(st0) IN
    CASE st.kind = "src"    -> Append(pkg, MkRows(i, st.rows))
      [] st.kind = "map"    -> [j \in 1..Len(pkg) |-> [n \in 1..Len(pkg[j]) |-> MapRow(pkg[j][n])]]
      [] st.kind = "filter" -> [j \in 1..Len(pkg) |-> SelectSeq(pkg[j], Keep)]
@@ -80,7 +86,8 @@ NumResAfter(steps, n) == Len(EvalPrefix(steps, n))
 \* well-typed programs: del needs a resource to delete
 WellTyped(steps) == \A i \in 1..Len(steps) : steps[i].kind \in {"del", "dup", "cat"} => NumResAfter(steps, i - 1) >= 1
 
-StepSet == [kind : (Kinds \ {"src", "fault"})]
+StepSet == [kind : (Kinds \ {"src", "fault", "cond"})]
+           \cup (IF "cond" \in Kinds THEN [kind : {"cond"}, pred : BOOLEAN, inner : {"map", "filter", "sort"}] ELSE {})
            \cup (IF "src" \in Kinds THEN [kind : {"src"}, rows : SrcRows] ELSE {})
            \cup (IF "fault" \in Kinds THEN [kind : {"fault"}, at : FaultAt, cls : FaultCls] ELSE {})
 Programs == {p \in UNION {[1..n -> StepSet] : n \in 1..MaxLen} : WellTyped(p)}
@@ -171,7 +178,7 @@ Funnel == /\ phase = "raised"
 \* ---- a step reacting to a demand from above ----
 StepDown(i) ==
    /\ phase = "rows" /\ ctl.at = i /\ i \in 1..N /\ ctl.dir = "down"
-   /\ LET s == steps[i]  l == loc[i]  req == ctl.item IN
+   /\ LET s == Eff(steps[i])  l == loc[i]  req == ctl.item IN
       IF req[1] = "NextRes" THEN
          IF s.kind = "src" /\ l.st = "own"               \* own resource already supplied: the stream is over
          THEN /\ ctl' = Up(i + 1, <<"EndAll">>) /\ UNCHANGED <<loc, pulled>>
@@ -208,7 +215,7 @@ Raise(i) == /\ exc' = [at |-> i, cls |-> steps[i].cls]
 \* ---- a step reacting to a supply from below ----
 StepUp(i) ==
    /\ phase = "rows" /\ ctl.at = i /\ i \in 1..N /\ ctl.dir = "up"
-   /\ LET s == steps[i]  l == loc[i]  it == ctl.item IN
+   /\ LET s == Eff(steps[i])  l == loc[i]  it == ctl.item IN
       CASE it[1] = "Exc" -> /\ ctl' = Up(i + 1, <<"Exc">>) /\ UNCHANGED <<loc, exc>>     \* unwinds through every generator; nobody commits
         [] it[1] = "Res" ->
              IF s.kind = "del" /\ it[2] = 1              \* the dropped resource: drain it now, inside this demand
@@ -288,7 +295,7 @@ FinalizerAtEnd == \A i \in 1..N : (steps[i].kind = "fin" /\ loc[i].calls = 1) =>
                      \A j \in 1..(i-1) : steps[j].kind = "obs" => loc[j].committed
 
 \* C06: without a buffering step the read-ahead never exceeds the inference sample
-Buffering == \E i \in 1..N : steps[i].kind \in {"sort", "dup"}
+Buffering == \E i \in 1..N : Eff(steps[i]).kind \in {"sort", "dup"}
 LookBound == MaxNat(MaxNat(Sample, Ahead), 1) - 1
 BoundedLookahead == ~Buffering => maxLook <= LookBound
 LookBoundEvenWhenBuffering == maxLook <= LookBound      \* NOT a property: violated as soon as a sort is present (non-vacuity check)
